@@ -113,7 +113,7 @@ func getValues(e *enc, o *Obligation, leaves []leaf, dir string, pin map[string]
 	for _, l := range leaves {
 		ok := true
 		for _, m := range nmNameRe.FindAllString(l.term, -1) {
-			if !strings.Contains(probe, "(declare-fun "+m+" ") {
+			if !strings.Contains(probe, "("+m+" ") {
 				ok = false
 			}
 		}
